@@ -260,6 +260,13 @@ def wide_pairs(rnd):
             two = head + broken % var + '    def g(): pass\n    use(g)\n'
             tail = 'f(use)\n' if head.startswith('def') else ''
             out.append((one + tail, two + tail, 'decorator-expression-below-its-at-%d' % k))
+    # import aliases whose `as name` part stands on a later line than the imported name
+    one = 'from os import path as p, sep as s\nimport os.path as op\nuse(p, s, op)\n'
+    for k, two in enumerate(('from os import (path as\n    p, sep\n as s)\nimport os.path as \\\n  op\nuse(p, s, op)\n',
+                             'from os import (path\n  as p,\nsep as\n        s)\nimport os.path \\\n as op\nuse(p, s, op)\n')):
+        out.append((one, two, 'alias-on-a-later-line-%d' % k))
+        out.append(('def f():\n' + ''.join('    ' + l + '\n' for l in one.split('\n') if l) + 'f()\n',
+                    'def f():\n' + ''.join('    ' + l + '\n' for l in two.split('\n') if l) + 'f()\n', 'alias-on-a-later-line-in-function-%d' % k))
     # comments inside a bracketed except clause that mention the handler's variable (and other identifiers) as whole words
     for var in ('err', 'e'):
         one = 'try:\n    pass\nexcept (OSError, ValueError) as %s:\n    use(%s)\nexcept (KeyError) as %s:\n    pass\n' % (var, var, var)
